@@ -30,6 +30,7 @@ CONSTANTS
  E2E = FALSE
  Aead = TRUE
  CheckIdent = TRUE
+ RelayOnce = TRUE
  AutoTimers = TRUE
 INVARIANT TypeOK
 INVARIANT NoShadow
